@@ -62,18 +62,20 @@ func c07Call(e *EngineFacade, which int, k, v []byte) {
 			}
 		}
 		e.GetCompactionStats()
+	case 13:
+		e.CompactRange(k, []byte{0xff, 0xff})
 	}
 }
 
-// VerifC07_Pairs: every unordered pair of thirteen entry points, one call each from two goroutines, on a small engine:
+// VerifC07_Pairs: every unordered pair of fourteen entry points, one call each from two goroutines, on a small engine:
 // no data race, no panic, no deadlock, both calls return.
 func VerifC07_Pairs() {
 	e, err := NewEngineFacade(vsym.Dir())
 	vsym.Assert(err == nil, "open failed")
 	k1, k2 := vsym.Bytes("k1", 1), vsym.Bytes("k2", 1)
 	e.Put(k1, vsym.Bytes("v0", 1))
-	a := vsym.IntRange("a", 0, 12)
-	b := vsym.IntRange("b", a, 12)
+	a := vsym.IntRange("a", 0, 13)
+	b := vsym.IntRange("b", a, 13)
 	var wg sync.WaitGroup
 	wg.Add(2)
 	go func() { defer wg.Done(); c07Call(e, a, k1, vsym.Bytes("va", 1)) }()
@@ -142,8 +144,8 @@ func VerifC07_PairsOnAgedEngine() {
 		h.hOpen(false, false)
 		e = h.e
 	}
-	a := vsym.IntRange("a", 0, 12)
-	b := vsym.IntRange("b", a, 12)
+	a := vsym.IntRange("a", 0, 13)
+	b := vsym.IntRange("b", a, 13)
 	var wg sync.WaitGroup
 	wg.Add(2)
 	go func() { defer wg.Done(); c07Call(e, a, h.K[0], vsym.Bytes("va", 1)) }()
